@@ -1,4 +1,4 @@
-(* C01 — hard box bounds are never left.   Statements only; proofs in Proofs/SkeletonBox.v
+(* C01 — hard box bounds are never left.   Statements only; proofs in Proofs/SkeletonBox.v, Proofs/SkeletonBoxR.v
    (run level, filter, search box) and Proofs/TransformProofs.v (the clamp, over the expressions
    regenerated from variables_transformer.py on every run).
 
@@ -12,7 +12,7 @@
 From Coq Require Import ZArith QArith List Bool Reals.
 From Coquelicot Require Import Rbar.
 From PV Require Import Model.Val Model.Skeleton Model.SkeletonValid Model.SkeletonNoisy Model.Filter Model.SkeletonBox.
-From PV Require Import Proofs.FilterProofs Proofs.SkeletonBox Proofs.TransformProofs.
+From PV Require Import Proofs.FilterProofs Proofs.SkeletonBox Proofs.SkeletonBoxR Proofs.TransformProofs.
 Import ListNotations.
 Open Scope Z_scope.
 
